@@ -62,6 +62,9 @@ type KnownFinding struct {
 	Commit   string `json:"commit,omitempty"`
 }
 
+// loadKnown parses /verif/known_findings.txt. Line formats:
+//   known: property=C16 harness=ZZ_x match="substring of msg @ where" :: what fails
+//   fixed: property=C02 <commit> <what failed>          (informational; suppresses nothing)
 func loadKnown(path string) []KnownFinding {
 	var out []KnownFinding
 	f, err := os.Open(path)
@@ -73,11 +76,32 @@ func loadKnown(path string) []KnownFinding {
 	sc.Buffer(make([]byte, 1<<20), 1<<20)
 	for sc.Scan() {
 		line := strings.TrimSpace(sc.Text())
-		if line == "" || strings.HasPrefix(line, "#") {
+		if !strings.HasPrefix(line, "known:") {
 			continue
 		}
-		var k KnownFinding
-		if json.Unmarshal([]byte(line), &k) == nil {
+		rest := strings.TrimSpace(strings.TrimPrefix(line, "known:"))
+		what := ""
+		if i := strings.Index(rest, "::"); i >= 0 {
+			what = strings.TrimSpace(rest[i+2:])
+			rest = rest[:i]
+		}
+		k := KnownFinding{Status: "known", What: what}
+		if i := strings.Index(rest, "match=\""); i >= 0 {
+			m := rest[i+7:]
+			if j := strings.Index(m, "\""); j >= 0 {
+				k.Match = m[:j]
+				rest = rest[:i] + m[j+1:]
+			}
+		}
+		for _, f := range strings.Fields(rest) {
+			if strings.HasPrefix(f, "property=") {
+				k.Property = strings.TrimPrefix(f, "property=")
+			}
+			if strings.HasPrefix(f, "harness=") {
+				k.Harness = strings.TrimPrefix(f, "harness=")
+			}
+		}
+		if k.Property != "" && k.Match != "" {
 			out = append(out, k)
 		}
 	}
@@ -197,7 +221,7 @@ func cmdRun(args []string) int {
 		fmt.Fprintln(os.Stderr, "harness package not found:", spec.Package)
 		return 2
 	}
-	known := loadKnown(filepath.Join(verifDir, "known_findings.jsonl"))
+	known := loadKnown(filepath.Join(verifDir, "known_findings.txt"))
 
 	type hrun struct {
 		spec HarnessSpec
